@@ -19,7 +19,7 @@ where
         usize::try_from(n).map_err(|e| io::Error::new(io::ErrorKind::InvalidData, e))
     })?;
 
-    let mut reference_sequences = Vec::with_capacity(n_ref);
+    let mut reference_sequences = Vec::new();
 
     for _ in 0..n_ref {
         let reference_sequence = read_reference_sequence(reader).await?;
@@ -36,4 +36,22 @@ where
     let (bins, metadata) = read_bins(reader).await?;
     let intervals = read_intervals(reader).await?;
     Ok(ReferenceSequence::new(bins, intervals, metadata))
+}
+
+#[cfg(test)]
+mod tests {
+    use super::*;
+
+    #[tokio::test]
+    async fn test_read_reference_sequences_with_an_unsatisfiable_count() {
+        let src = [
+            0xff, 0xff, 0xff, 0xff, // n_ref = 4294967295
+            0xff, 0xff, 0xff, 0xff, // ref[0].n_bin = 4294967295
+        ];
+
+        assert!(matches!(
+            read_reference_sequences(&mut &src[..]).await,
+            Err(e) if e.kind() == io::ErrorKind::UnexpectedEof
+        ));
+    }
 }
